@@ -1329,6 +1329,25 @@ func (in *Interp) floatBinop(op token.Token, x, y value) value {
 		}
 		return nil, false
 	}
+	// an integer-valued symbolic float against an arbitrary constant: move the constant to the
+	// neighbouring integer (t < c <=> t < ceil(c), t <= c <=> t <= floor(c), ...)
+	if xi, isI := x.(intFloat); isI {
+		if c, isC := y.(float64); isC && c != math.Trunc(c) || isC && math.Abs(c) >= 1e15 {
+			if r, ok := in.intFloatVsConst(op, xi.t, c); ok {
+				return r
+			}
+		}
+	}
+	if yi, isI := y.(intFloat); isI {
+		if c, isC := x.(float64); isC && c != math.Trunc(c) || isC && math.Abs(c) >= 1e15 {
+			flip := map[token.Token]token.Token{token.LSS: token.GTR, token.GTR: token.LSS, token.LEQ: token.GEQ, token.GEQ: token.LEQ, token.EQL: token.EQL, token.NEQ: token.NEQ}
+			if f, has := flip[op]; has {
+				if r, ok := in.intFloatVsConst(f, yi.t, c); ok {
+					return r
+				}
+			}
+		}
+	}
 	xt, ok1 := asTerm(x)
 	yt, ok2 := asTerm(y)
 	if ok1 && ok2 {
@@ -1349,6 +1368,52 @@ func (in *Interp) floatBinop(op token.Token, x, y value) value {
 		}
 	}
 	panic(cut("float-op-on-symbolic %v", op))
+}
+
+// intFloatVsConst decides t op c for an integer term t and a float constant c.
+func (in *Interp) intFloatVsConst(op token.Token, t *Term, c float64) (value, bool) {
+	if c != c {
+		return op == token.NEQ, true
+	}
+	const lim = 9.2e18
+	if c >= lim || c <= -lim {
+		big := c > 0
+		switch op {
+		case token.LSS, token.LEQ:
+			return big, true
+		case token.GTR, token.GEQ:
+			return !big, true
+		case token.EQL:
+			return false, true
+		case token.NEQ:
+			return true, true
+		}
+		return nil, false
+	}
+	fl, ce := math.Floor(c), math.Ceil(c)
+	tt := in.tab
+	k := func(f float64) *Term { return tt.Const(64, uint64(int64(f))) }
+	switch op {
+	case token.LSS:
+		return in.simpBool(tt.Slt(t, k(ce))), true
+	case token.LEQ:
+		return in.simpBool(tt.Sle(t, k(fl))), true
+	case token.GTR:
+		return in.simpBool(tt.Slt(k(fl), t)), true
+	case token.GEQ:
+		return in.simpBool(tt.Sle(k(ce), t)), true
+	case token.EQL:
+		if fl != ce {
+			return false, true
+		}
+		return in.simpBool(tt.Eq(t, k(fl))), true
+	case token.NEQ:
+		if fl != ce {
+			return true, true
+		}
+		return in.simpBool(tt.Not(tt.Eq(t, k(fl)))), true
+	}
+	return nil, false
 }
 
 // refEq compares pointers, interfaces, funcs, maps, slices (against nil), structs, arrays.
